@@ -24,7 +24,7 @@ RULE = ("(base, ref1, ref2): absolute base URL with authority (optional userinfo
         "non-trivial = ref1 or ref2 has a '.', '..' or empty path segment, or is query-/fragment-only; "
         "distinct = distinct (base, ref1, ref2) hash")
 ASSUMPTIONS = ["texts are free of '%', of ';' '+' in queries, of IPv6/IDNA hosts (quoting/IDNA belong to C06)",
-               "scheme and host of generated bases are lower case (case normalisation is not part of the Spec)",
+               "about 15 % of bases and absolute references have a mixed-case scheme/host; the Spec compares modulo RFC 6.2.2.1 case folding of scheme and host (ASCII)",
                "ports are neither 0 nor the scheme's default in most cases (the model follows to_text when they are)"]
 TRUSTED = ["Model/C07_Model.v is hand-written; tied to boltons.urlutils.URL by the correspondence run",
            "Spec/C07_Spec.v transcribes RFC 3986 5.2.2-5.2.4, 5.3 and Appendix B; validated in Coq against all "
@@ -75,7 +75,13 @@ def _base(rng, canonical=False):
     """canonical: the text is its own to_text() (no default/zero/padded port), needed when it is
     used as a reference, because the Spec takes the reference text as given."""
     sch = rng.choice(SCHEMES)
-    auth = rng.choice(USERINFO) + rng.choice(HOSTS) + rng.choice(PORTS[:6] if canonical else PORTS)
+    host = rng.choice(HOSTS)
+    upper = rng.random() < 0.15          # mixed-case scheme/host: navigate/normalize lower-case them (RFC 6.2.2.1)
+    if upper:
+        sch = rng.choice([sch.upper(), sch.capitalize()])
+        host = rng.choice([host.upper(), host.title()])
+    # a default port is elided by to_text only for the lower-case scheme: keep those to lower-case bases
+    auth = rng.choice(USERINFO) + host + rng.choice(PORTS[:6] if (canonical or upper) else PORTS)
     segs = _path(rng, 6)
     shape = rng.random()
     if shape < 0.15:
@@ -283,6 +289,8 @@ def distribution(d, case, obs):
                                                      ("trailing-slash" if bp[2].endswith('/') else "file")))
     if any(s in ('.', '..') for s in bp[2].split('/')):
         _bump(d, "base_path", "with-dot-segments")
+    if b.split('://')[0] != b.split('://')[0].lower():
+        _bump(d, "base_has", "mixed-case scheme/host")
     _bump(d, "base_has", "query" if '?' in b else "no-query")
     _bump(d, "base_has", "fragment" if '#' in b else "no-fragment")
     _bump(d, "base_has", "userinfo" if '@' in bp[0] else "no-userinfo")
